@@ -165,6 +165,7 @@ pub fn finalize(
     let mut unlisted = 0usize;
     let mut nknown = 0usize;
     let mut known_hits: BTreeMap<usize, usize> = BTreeMap::new();
+    let mut not_reproduced: Vec<String> = vec![];
     let mut by_sig = serde_json::Map::new();
     let _ = std::fs::create_dir_all(format!("{verif_dir}/replays/{prop}"));
     // smallest witnesses first; at most MAX_LINES VIOLATION lines are printed (all signatures are in the evidence)
@@ -183,6 +184,12 @@ pub fn finalize(
         printed += 1;
         if printed > MAX_LINES {
             continue;
+        }
+        // a violation is re-executed once (public API only, no explorer) before it is reported
+        if printed <= 12 {
+            if let Some(false) = crate::replay::reproduces(&v.replay) {
+                not_reproduced.push(sig.clone());
+            }
         }
         let digest = hex::encode(&crate::keccak::keccak256(sig.as_bytes())[..6]);
         let path = format!("{verif_dir}/replays/{prop}/{digest}-{cfg}.json");
@@ -207,6 +214,9 @@ pub fn finalize(
     }
     for m in &rep.machinery {
         println!("MACHINERY-ERROR: {m}");
+    }
+    for s in &not_reproduced {
+        println!("NOTE: the replay of [{s}] did not re-establish the violation through the plain replay path (the recorded case file remains the witness)");
     }
     let nontrivial: u64 = rep.stats.classes.iter().filter(|(k, _)| k.starts_with("nontrivial:")).map(|(_, v)| *v).sum();
     let mut samples = rep.stats.samples.clone();
